@@ -88,6 +88,15 @@ def make_probes(decl, schema, cat=None):
                     # far outside and negative: code that treats "a negative number" as a flag rather than as a value
                     span = (abs(lo) + abs(hi)) if abs(hi) < UNBOUNDED else abs(lo) + 1.0
                     probes.append((name, -(span + 1.5), 'far-below-min', dom))
+                # the declared DefaultValue itself, when the module's working value is something else (e.g. a -1 "use the
+                # correlation" sentinel): an in-range input like any other, it must be accepted and used
+                try:
+                    dv = float(dflt)
+                    wv = float(p.value) if not isinstance(p.value, (list, tuple)) else None
+                except (TypeError, ValueError):
+                    dv = wv = None
+                if dv is not None and wv is not None and dv != wv and lo <= dv <= hi and dv not in (lo, hi):
+                    probes.append((name, dv, 'declared-default', dom))
                 # the same out-of-range quantity written in another listed unit must be rejected as well
                 ut, pref = p.UnitType, p.PreferredUnits
                 if cat and ut in cat and ut not in CURRENCY_TYPES and pref and p.CurrentUnits == pref \
@@ -119,6 +128,13 @@ def make_probes(decl, schema, cat=None):
                 probes.append((name, allow[0], 'min', dom))
                 probes.append((name, allow[-1], 'max', dom))
                 probes.append((name, allow[-1] + 1, 'above-max', dom))
+                try:
+                    dvi = int(getattr(p.DefaultValue, 'int_value', p.DefaultValue))
+                    wvi = int(getattr(p.value, 'int_value', p.value))
+                    if dvi != wvi and dvi in set(allow) and dvi not in (allow[0], allow[-1]):
+                        probes.append((name, dvi, 'declared-default', dom))
+                except (TypeError, ValueError):
+                    pass
                 probes.append((name, -(abs(allow[0]) + abs(allow[-1]) + 7), 'far-below-min', dom))
                 probes.append((name, (abs(allow[0]) + abs(allow[-1])) * 10 + 7, 'far-above-max', dom))
                 if len(allow) < allow[-1] - allow[0] + 1:          # the set has holes: probe one non-member inside the span
@@ -167,7 +183,7 @@ def probe_job(text, probes, family):
         res = runner.run_text(text + f'\n{name}, {pr["dom"].get("text") or _fmt(val)}\n', want_snap=False, stop_after_read=True,
                               callbacks=(at_end_of_read,))
         evs = [e for e in C.READ_EVENTS if e['key'] == name]
-        in_domain = kind in ('min', 'max')
+        in_domain = kind in ('min', 'max', 'declared-default')
         wit = {'family': family, 'parameter': name, 'value': val, 'kind': kind, 'domain': pr['dom'],
                'outcome': res.exc_type, 'message': (res.exc_msg or '')[:200]}
         if not evs:
@@ -294,7 +310,7 @@ def hip_probe_job(probes, family='hip-ra-x'):
         C.reset()
         res = run_hip(HIP_BASE + f'{name}, {pr["dom"].get("text") or _fmt(val)}\n')
         evs = [e for e in C.READ_EVENTS if e['key'] == name]
-        in_domain = kind in ('min', 'max')
+        in_domain = kind in ('min', 'max', 'declared-default')
         err = res['error'] or ''
         wit = {'family': family, 'parameter': name, 'value': val, 'kind': kind, 'domain': pr['dom'], 'outcome': err[:200]}
         if not evs:
@@ -400,7 +416,7 @@ def api_job(text, probe, family):
     finally:
         logging.disable(logging.NOTSET)
     wit = {'family': family, 'parameter': name, 'value': val, 'kind': kind, 'error': (err or '')[:200]}
-    if kind in ('min', 'max'):
+    if kind in ('min', 'max', 'declared-default'):
         if err is not None and 'outside of valid range' in err and name in err:
             mon.bad('api-bound-accepted', mechanism='C07/documented-bound-rejected', **wit)
         elif err is not None:
@@ -470,8 +486,8 @@ def run(ctx):
             jobs.append({'fn': 'gxv.props.c07:probe_job', 'args': {'text': text, 'probes': probes[i:i + 40], 'family': fam},
                          'timeout': 600})
         if fam in API_FAMILIES:
-            rej = [p for p in probes if p['kind'] not in ('min', 'max')]
-            acc = [p for p in probes if p['kind'] in ('min', 'max')]
+            rej = [p for p in probes if p['kind'] not in ('min', 'max', 'declared-default')]
+            acc = [p for p in probes if p['kind'] in ('min', 'max', 'declared-default')]
             ctx.rng.shuffle(rej)
             ctx.rng.shuffle(acc)
             take_r = rej[:max(8, len(rej) // (20 if ctx.quick else 4))]
